@@ -1660,6 +1660,27 @@ def check_forget_reaches_answers(ck, R):
                     except AnalysisError:
                         continue
                 events += fa.nodes(c)
+            # `for source in (self.a, self.b): [if source:] source.forget_x(arg)`: the loop delivers it to each of them
+            for lp in fa.stmts((ast.For, ast.AsyncFor)):
+                if not (isinstance(lp.iter, (ast.Tuple, ast.List)) and isinstance(lp.target, ast.Name) and fa.nodes(lp)
+                        and any(A.norm(x) == src_txt for x in lp.iter.elts)):
+                    continue
+                var = lp.target.id
+                body = lp.body
+                if len(body) == 1 and isinstance(body[0], ast.If) and not body[0].orelse and \
+                        A.norm(body[0].test) in (var, "%s is not None" % var):
+                    body = body[0].body  # skipped only for a source that is not configured
+                for st in body:
+                    if not isinstance(st, ast.Expr):
+                        break
+                    c = st.value
+                    if isinstance(c, ast.Call) and A.call_attr(c) == name and isinstance(A.call_recv(c), ast.Name) and A.call_recv(c).id == var:
+                        try:
+                            if not explicit or (c.args and ("param:" + explicit[0]) in fa.deps(c.args[0])):
+                                events += fa.nodes(lp)
+                        except AnalysisError:
+                            pass
+                        break
             unset = {(src_txt, False), ("%s is None" % src_txt, True)}
             edge_ok = branch_filter(fa, lambda txt, pol: (txt, pol) in unset)
             ok = bool(events) and fa.cfg.must_pass(events, fa.cfg.exit, edge_ok=edge_ok)
